@@ -486,17 +486,17 @@ func (b *builder) importItem(k kind, prefix []string) {
 	// PHP rejects a second import of the same alias in one namespace: skip it
 	switch k {
 	case kClass:
-		if _, dup := b.sc.class[strings.ToLower(alias)]; dup {
+		if _, dup := b.sc.class[asciiLower(alias)]; dup {
 			alias += "X"
 			text = strings.Join(segs, "\\") + " as " + alias
 		}
-		b.sc.class[strings.ToLower(alias)] = full
+		b.sc.class[asciiLower(alias)] = full
 	case kFunction:
-		if _, dup := b.sc.function[strings.ToLower(alias)]; dup {
+		if _, dup := b.sc.function[asciiLower(alias)]; dup {
 			alias += "X"
 			text = strings.Join(segs, "\\") + " as " + alias
 		}
-		b.sc.function[strings.ToLower(alias)] = full
+		b.sc.function[asciiLower(alias)] = full
 	case kConst:
 		if _, dup := b.sc.constant[alias]; dup {
 			alias += "X"
